@@ -17,6 +17,7 @@ RULE = (
     "state variables stay bit-equal to the last committed copy. Elastic: two generated subdivisions of the same end "
     "value give the same final state. Non-trivial: >= 1 load reversal or repeated value, or an injected failure."
     " family 'ramped-items': PointLoad (also axisymmetric) and gravity ramped by a Step through item.update; class 'mixed-or': a history material inside the three-field wrapper; class 'or-composite': a history material as first part of a composite (a & b)."
+    ' Family user-strain-material (a user law behind MaterialStrain returning its state as a new array: stored state, strain and stress after every converged substep); job.timetrack; steps built from one re-used ramp dictionary; ramp tables from linsteps(axis=0); state consistency of the condensed body.'
 )
 ASSUMPTIONS = [
     "a non-converging substep is injected with a NaN ramp value (deterministic ValueError of the Newton solver); generated large jumps may additionally fail to converge and are treated as legitimate failures",
